@@ -117,6 +117,16 @@ D = {
  "C18f": ("INT 21h reads at most 4096 bytes of a line", "input line of 4096 bytes or more followed by another console read"),
  "C19f": ("above 256 forward references the first undefined label is chosen by position only", "more than 256 forward references and two undefined labels from one macro use"),
  "C20f": ("prompt reads at most 8192 bytes of a line", "prompt line longer than 8191 bytes: one line becomes two commands"),
+ "C01g": ("assembler maps upper-case `SBB` to `sub`", "spelling `SBB` with CF = 1"),
+ "C02g": ("`shift word <label>, CL` reads the high byte at m+1 without wrap", "word label at physical 0xFFFFF, CL form (panic)"),
+ "C03g": ("unary arithmetic on a word label reads the high byte at m+1 without wrap", "MUL/DIV (INC/DEC/NEG) of a word label at physical 0xFFFFF (panic)"),
+ "C04g": ("`xchg word <label>, reg` writes the high byte at m+1 without wrap", "word label at physical 0xFFFFF (panic)"),
+ "C05g": ("a memory operand passed as macro argument loses an explicit `ds` override", "macro argument `word ds[bp..]` with SS != DS"),
+ "C06g": ("driver stops the run when a jump lands on itself (except ret)", "taken self-targeting LOOP/LOOPE/LOOPNE through the real driver"),
+ "C07g": ("MOVS word copies byte by byte", "word MOVS whose destination starts one byte above its source"),
+ "C08g": ("a procedure's entry is also recorded as a code label (overwriting an earlier label of that name)", "label and procedure with the same name, label first, taken jump to the label"),
+ "C09g": ("no appended HLT when the program ends in HLT; prompt guard by source-map membership", "label behind the final written HLT reached by a taken jump (panic), free running and stepping"),
+ "C10g": ("forward references kept as a map position -> name", "one macro use with two forward jumps, an earlier one undefined: accepted, Internal Error at run time"),
 }
 rows = []
 for d in sorted(glob.glob(os.path.join(ROOT, "seeded", "*"))):
